@@ -47,6 +47,22 @@ def make(case):
     return x, ys, af, nf, truth
 
 
+def ift_solve(ctx, H, M):
+    """X with H X + M = 0: by the Lean model (exact rational arithmetic, every column checked) when the driver
+    is available, else by LAPACK"""
+    X = -np.linalg.solve(H, M)
+    if ctx is not None and ctx.lean is not None:
+        from fractions import Fraction
+        from pe_util import q2j
+        rr = ctx.lean.call({'op': 'ift', 'H': [[q2j(float(v)) for v in row] for row in np.asarray(H)], 'M': [[q2j(float(v)) for v in row] for row in np.asarray(M)]})
+        if '_err' not in rr and 'exc' not in rr:
+            XL = np.array([[float(Fraction(a_, b_)) for a_, b_ in row] for row in rr['X']])
+            ctx.residual('lapack_vs_exact_ift', float(np.max(np.abs(XL - X)) / max(np.max(np.abs(XL)), 1e-300)))
+            ctx.count('exact-ift')
+            return XL
+    return X
+
+
 def newton_min(chi, p0, iters=60):
     """minimise an independent chi-square by damped Newton with finite-difference derivatives"""
     p = np.array(p0, dtype=float)
@@ -129,7 +145,30 @@ def check_case(ctx, case):
                 return probs
             if not close(res.chisquare, chi(phat), rtol=1e-7, scale=max(chi(phat), 1e-6)):
                 probs.append(('violation', 'chisquare', '%r vs %r' % (res.chisquare, chi(phat))))
-            # sensitivities dp/dy_i (and dp/dprior) by shifting one datum and re-minimising
+            # the rule itself: -H^-1 d(grad chi2)/d(data) of the independently coded chi-square at the returned
+            # point (derivatives by autograd, the linear solve by the Lean model in exact arithmetic), applied to the
+            # data fluctuations by configuration number
+            import autograd
+
+            def chi_ad(p, dat):
+                r = dat[:len(yv)] - af(p, x)
+                c = anp.dot(r, anp.dot(W, r))
+                for k, (i_, v_, d_) in enumerate(pri):
+                    c = c + ((p[i_] - dat[len(yv) + k]) / d_) ** 2
+                return c
+            dat0 = np.concatenate([yv, [z[1] for z in pri]])
+            Hh = autograd.hessian(chi_ad, 0)(phat, dat0)
+            Mh = autograd.jacobian(autograd.grad(chi_ad, 0), 1)(phat, dat0)
+            Sx = ift_solve(ctx, Hh, Mh)
+            qs0 = [Q.of(o) for o in ys] + [Q.of(o) for o in priors.values()]
+            for a in range(len(phat)):
+                qa = combine(lambda v, a=a: float(phat[a]), list(Sx[a]), qs0)
+                da = compare_q(res.fit_parameters[a], qa, rtol=1e-6)
+                da = [z for z in da if not z.startswith('value') and not z.startswith('r_value')]
+                if da:
+                    probs.append(('violation', 'implicit-function-fluctuations', ['parameter %d (rule evaluated at the returned point)' % a] + da[:3]))
+                    return probs
+            # its consequence: sensitivities dp/dy_i (and dp/dprior) by shifting one datum and re-minimising
             def sens(rel):
                 S = np.zeros((len(phat), len(yv) + len(pri)))
                 for i in range(len(yv)):
@@ -177,7 +216,7 @@ def check_case(ctx, case):
                     dat0 = np.concatenate([yv, [z[1] for z in pri]])
                     H = autograd.hessian(chi_a, 0)(phat, dat0)
                     M = autograd.jacobian(autograd.grad(chi_a, 0), 1)(phat, dat0)
-                    Sa = -np.linalg.solve(H, M)
+                    Sa = ift_solve(ctx, H, M)
                     qa = combine(lambda v, a=a: float(phat[a]), list(Sa[a]), qs)
                     da = compare_q(res.fit_parameters[a], qa, rtol=1e-6)
                     da = [z for z in da if not z.startswith('value') and not z.startswith('r_value')]
@@ -239,7 +278,7 @@ def check_case(ctx, case):
                         break
                 H_ = autograd.hessian(chi_t, 0)(z, dat0)
                 M_ = autograd.jacobian(autograd.grad(chi_t, 0), 1)(z, dat0)
-                St = -np.linalg.solve(H_, M_)
+                St = ift_solve(ctx, H_, M_)
                 qs_t = [Q.of(o) for o in ys] + [Q.of(o) for o in xflat]
                 for a in range(npar_):
                     qa = combine(lambda v, a=a: float(z[a]), list(St[a]), qs_t)
